@@ -258,6 +258,7 @@ package tq
 //@   requires @inv bReq != nil && c != nil && c.Client != nil
 //@   requires @inv forall_int(i, bReq.Objects[i], 0 <= i && i < len(bReq.Objects) ==> bReq.Objects[i] != nil)
 //@   ensures @C06 result1 == nil && result0 != nil ==> forall_int(i, result0.Objects[i], 0 <= i && i < len(result0.Objects) ==> result0.Objects[i] != nil)
+//@   loop 2 invariant @C06 forall_int(k, bRes.Objects[k], 0 <= k && k <= rangeindex ==> bRes.Objects[k] != nil)
 //@   ensures result1 == nil && result0 != nil ==> result0.HashAlgorithm == "" || result0.HashAlgorithm == "sha256"
 
 //@ func github.com/git-lfs/git-lfs/v3/lfshttp.DecodeJSON
